@@ -324,6 +324,10 @@ def check_C16(rep, fl):
     # and there, with that cost - a victim left behind is reported later (by the sweep) with the cost of an untracked key
     import props_life as _pl
     _pl.check_handle_item_pairing(rep, fl, rule="R16.5", collisions=False, only_sites=("victims inspected on every path", "victim => try_remove(victim.key, 0)"))
+    # "the cost charged .. equals the .. cost given": the cost table records what it is handed (R01.2: used and the table
+    # move by exactly that amount)
+    import props_policy as _pp
+    _pp.check_balance(rep, fl, _pp.slfu_writers(fl.facts))
 
 
 # ----------------------------------------------------------------------------------------
